@@ -418,3 +418,18 @@ package web
 //@     ghost inFlushedG := len($arg1) > 0 && $arg1[len($arg1) - 1] == e && len($arg1) == n0G + 1
 //@   at call StoreEntities#1
 //@     ghost flushedG := true
+
+// ---------------------------------------------------------------------------
+// C16: whenever security is switched on (the three settings for which tokens are validated), the routes get the enforcing
+// authorizer, never the no-op one
+//@ assumed middlewares.Authorizer
+//@   pure
+//@ unit web.NewAuthorizer
+//@   prop C16
+//@   ghost realG bool = false
+//@   requires env != nil && env.Auth != nil && logger != nil
+//@   ensures [C16:with-security-enabled-the-routes-are-guarded-by-the-enforcing-authorizer] (env.Auth.Middleware == "local" || env.Auth.Middleware == "opa" || env.Auth.Middleware == "on") && env.AdminUserName != "" && env.AdminPassword != "" ==> realG
+//@   at call Authorizer#1 before
+//@     assert [C16:the-enforcing-authorizer-checks-against-the-security-core] $arg0 == core
+//@   at call Authorizer#1
+//@     ghost realG := true
